@@ -449,4 +449,80 @@ def delete_skip(repo: Repo) -> RuleRun:
 
 delete_skip.rule_id = "C12.DELETE-SKIP"
 
-RULES = [clear_complete, grade_idempotent, lockstep_filter, delete_skip]
+def backport_map(repo: Repo) -> RuleRun:
+    """Abstract run of Mesh.backport on a symbolic mesh (3 operations, optionally one deleted): every
+    non-deleted operation receives the 8 vertex positions of ITS block - corners 0-3 on the bottom
+    face, 4-7 on the top face - and the mesh is cleared and assembled again afterwards."""
+    from ..peval import NO_MATCH, Evaluator, NotEvaluable, Obj, Raised, Sym
+
+    r = RuleRun(PROP, "C12.BACKPORT-MAP", floor=4, what="backport writes block i's vertices into the i-th non-deleted operation, all 8 corners, then re-assembles")
+    fn = repo.func("mesh.Mesh.backport")
+    upd = repo.func("construct.flat.face.Face.update")
+    for deleted in (None, 0, 1, 2):
+        ops = []
+        for i in range(3):
+            op = Obj(f"op{i}", cls=None)
+            for nm in ("bottom", "top"):
+                face = Obj(f"op{i}.{nm}", cls=repo.cls("construct.flat.face.Face"))
+                face.set("points", [Obj(f"op{i}.{nm}.p{k}", position=Sym(f"old{i}{nm}{k}")) for k in range(4)])
+                op.set(f"{nm}_face", face)
+            ops.append(op)
+        live = [op for i, op in enumerate(ops) if i != deleted]
+        blocks = []
+        for b, op in enumerate(live):
+            blk = Obj(f"block{b}")
+            blk.set("vertices", [Obj(f"v{b}{k}", position=Sym(f"new:{op._name}:{k}")) for k in range(8)])
+            blocks.append(blk)
+        mesh = Obj("mesh", cls=repo.cls("mesh.Mesh"))
+        mesh.set("is_assembled", True)
+        mesh.set("operations", ops)
+        mesh.set("blocks", blocks)
+        mesh.set("deleted", {ops[deleted]} if deleted is not None else set())
+        events = []
+
+        def hook(ev, call: ast.Call, name, events=events):
+            if attr_chain(call.func) in ("self.clear", "self.assemble"):
+                events.append(attr_chain(call.func))
+                return None
+            if name in ("np.array", "np.asarray") and call.args:
+                return ev.eval(call.args[0])
+            return NO_MATCH
+
+        ev = Evaluator(repo=repo, module=fn.module, call_hook=hook)
+        try:
+            ev.call_funcinfo(fn, [mesh])
+        except Raised as err:
+            r.bad(fn, f"Mesh.backport raises {err.exc_name} on a mesh of 3 operations with operation {deleted} deleted", fn.node, key=f"deleted={deleted}")
+            continue
+        except NotEvaluable as err:
+            raise AnalysisError(f"Mesh.backport not evaluable on the symbolic mesh: {err}") from err
+        problems = []
+        for i, op in enumerate(ops):
+            got = [p.get("position") for p in op.get("bottom_face").get("points")] + [p.get("position") for p in op.get("top_face").get("points")]
+            if i == deleted:
+                want = [Sym(f"old{i}bottom{k}") for k in range(4)] + [Sym(f"old{i}top{k}") for k in range(4)]
+                if got != want:
+                    problems.append(f"the deleted operation {i} was rewritten: {got}")
+            else:
+                want = [Sym(f"new:op{i}:{k}") for k in range(8)]
+                wrong = [k for k in range(8) if got[k] != want[k]]
+                if wrong:
+                    problems.append(f"operation {i}: corner(s) {wrong} receive {[repr(got[k]) for k in wrong]} instead of the positions of its own block's vertices {wrong}")
+        if events != ["self.clear", "self.assemble"]:
+            problems.append(f"after copying the positions backport calls {events}; expected clear() then assemble()")
+        r.check(not problems, fn, f"3 operations, deleted={deleted}: every live operation gets its block's 8 positions", f"Mesh.backport (deleted operation: {deleted}): " + "; ".join(problems), fn.node, key=f"deleted={deleted}")
+    return r
+
+
+backport_map.rule_id = "C12.BACKPORT-MAP"
+
+def assemble_walk(repo: Repo) -> RuleRun:
+    """Deleting an operation removes its block and nothing else (abstract run of Mesh.assemble)."""
+    from . import c06
+
+    return c06.assemble_walk(repo, PROP, "C12.ASSEMBLE-WALK")
+
+
+assemble_walk.rule_id = "C12.ASSEMBLE-WALK"
+
+RULES = [clear_complete, grade_idempotent, lockstep_filter, backport_map, delete_skip, assemble_walk]
